@@ -151,6 +151,10 @@ def work_public(chunk):
 
 
 def replay(case):
+    if case.get("raw_no_eid"):
+        common.prepare_stage()
+        r = work_raw_no_eid([case])
+        return {"problems": [v[1] for v in r["violations"]], "holds": not r["violations"]}
     if "driver" in case:
         from . import c13
 
@@ -158,6 +162,55 @@ def replay(case):
         probs, n = (c13.run_shared if "order" in case else c13.run_public)(case, CLAUSES)
         return {"problems": [p for p in probs if p[0] == "mac"], "requests": n}
     return histcheck.replay(case, CLAUSES)
+
+
+def work_raw_no_eid(chunk):
+    """Low-level socket created with a password / master key but an *empty* engine id: whatever it sends with the auth flag
+    set must verify under the key localized to the engine id the message itself carries (here: the empty one)."""
+    from .. import drivers, refber as rb, refcrypto
+    from . import c10
+
+    res = common.Result()
+    SYS = (1, 3, 6, 1, 2, 1, 1, 5, 0)
+    for case in chunk:
+        base = Cfg.from_desc(case["cfg"])
+        cfg = c10.EmptyEidCfg.from_desc(case["cfg"])
+        cfg.__class__ = c10.EmptyEidCfg
+        w = drivers.SplitWorld(cfg)
+        try:
+            for op in ("refresh", "get", "get_many", "getbulk", "refresh"):
+                if op == "get":
+                    o = w.send(op, rb.oid_str(SYS))
+                elif op == "get_many":
+                    o = w.send(op, [rb.oid_str(SYS)])
+                elif op == "getbulk":
+                    o = w.send(op, it=w.iter_for("b", rb.oid_str(SYS), 5))
+                else:
+                    o = w.send(op)
+                data = w.take_request() if o.kind == "ok" else None
+                res.count("cases")
+                res.count("api_calls")
+                res.distinct()
+                res.outcome("raw-no-engine-id")
+                if data is None:
+                    continue
+                r = rb.parse_message(data, strict=False)
+                if not r.flags & 1:
+                    continue  # a probe may go out unauthenticated (RFC 3414 s.4); C14 judges what may be in it
+                res.count("datagrams")
+                off = r.auth_off
+                kul = refcrypto.localize(base.auth, drivers.master_key(base.auth, base.auth_pass), bytes(r.engine_id))
+                want = refcrypto.mac_of_message(base.auth, kul, data[:off] + bytes(12) + data[off + 12 :], off)
+                if data[off : off + 12] != want:
+                    res.violation(
+                        "raw-no-engine-id/%s/mac" % base.name,
+                        "%s sent with the auth flag and engine id %r: msgAuthenticationParameters does not verify under the key localized to that engine id" % (op, bytes(r.engine_id)),
+                        {"raw_no_eid": True, "cfg": case["cfg"]},
+                    )
+                    break
+        finally:
+            w.close()
+    return res
 
 
 def run(tier):
@@ -172,4 +225,6 @@ def run(tier):
     rec.assume("HMAC and key derivation by CPython hashlib/hmac; key localized to the engine id found in the message")
     common.run_cases(rec, work, list(gen_cases(tier)), chunk=4)
     common.run_cases(rec, work_public, list(gen_public(tier)), chunk=6)
+    raw = [{"cfg": Cfg("v3", auth=a, priv=p, key_type=kt, priv_key_type=kt).describe()} for a in (1, 2) for p in (0, 1, 2) for kt in (0, 1)]
+    common.run_cases(rec, work_raw_no_eid, raw, chunk=2)
     return histcheck.finish(rec)
